@@ -1,7 +1,194 @@
 /- helper lemmas for FanoutCache / DjangoCache / Deque / Index models (C11, C12, C13, C19) -/
 import DC.Proofs.Queue
 import DC.Model.Layers
+import DC.Properties.C03_Paging
 
 namespace DC
+
+namespace Fanout
+
+theorem onShard_getElem_ne (f : Fanout) (i j : Nat) (op : Cache → Cache × Out) (hj : j ≠ i) :
+    (f.onShard i op).1.shards[j]? = f.shards[j]? := by
+  unfold onShard
+  split
+  · rfl
+  · simp only
+    rw [List.getElem?_set_ne (Ne.symm hj)]
+
+theorem onShard_some (f : Fanout) (i : Nat) (op : Cache → Cache × Out) (s : Cache)
+    (hs : f.shards[i]? = some s) :
+    (f.onShard i op).2 = (op { s with env := f.env, envMiss := false, trace := [] }).2 ∧
+    (f.onShard i op).1.shards[i]? = some (op { s with env := f.env, envMiss := false, trace := [] }).1 := by
+  unfold onShard
+  rw [hs]
+  simp only [true_and]
+  have hi : i < f.shards.length := by
+    rcases List.getElem?_eq_some_iff.1 hs with ⟨h, _⟩
+    exact h
+  rw [List.getElem?_set_self hi]
+
+/-- the step of `each` -/
+def eachStep (op : Cache → Cache × Out) (acc : Fanout × List Out) (i : Nat) : Fanout × List Out :=
+  ((acc.1.onShard i op).1, acc.2 ++ [(acc.1.onShard i op).2])
+
+theorem each_eq (f : Fanout) (op : Cache → Cache × Out) :
+    f.each op = (List.range f.shards.length).foldl (eachStep op) (f, []) := rfl
+
+/-- induction principle for `each`: shards are processed in order 0, 1, …, n-1 -/
+theorem each_induct (f : Fanout) (op : Cache → Cache × Out) (P : Nat → Fanout × List Out → Prop)
+    (h0 : P 0 (f, []))
+    (hstep : ∀ k acc, k < f.shards.length → P k acc → P (k + 1) (eachStep op acc k)) :
+    P f.shards.length (f.each op) := by
+  rw [each_eq]
+  have : ∀ k, k ≤ f.shards.length → P k ((List.range k).foldl (eachStep op) (f, [])) := by
+    intro k
+    induction k with
+    | zero => intro _; exact h0
+    | succ k ih =>
+      intro hk
+      rw [List.range_succ, List.foldl_append]
+      exact hstep k _ (by omega) (ih (by omega))
+  exact this _ (Nat.le_refl _)
+
+theorem sumInts_aux (l : List Int) (a : Int) :
+    (l.map Out.int).foldl (fun acc o => match o with | .int i => acc + i | _ => acc) a = a + l.sum := by
+  induction l generalizing a with
+  | nil => simp
+  | cons x t ih => simp only [List.map_cons, List.foldl_cons, List.sum_cons, ih]; omega
+
+theorem sumInts_ints (l : List Int) : sumInts (l.map Out.int) = .int l.sum := by
+  unfold sumInts
+  exact congrArg Out.int ((sumInts_aux l 0).trans (Int.zero_add _))
+
+theorem each_len (f : Fanout) :
+    (f.each (fun s => s.len)).2 = (f.shards.map (·.count)).map Out.int := by
+  have h := each_induct f (fun s => s.len)
+    (fun k acc => (∀ j : Nat, (acc.1.shards[j]?).map Cache.count = (f.shards[j]?).map Cache.count) ∧
+      acc.2 = ((f.shards.take k).map Cache.count).map Out.int)
+    ⟨fun _ => rfl, rfl⟩ ?_
+  · rw [h.2, List.take_length]
+  · intro k acc hk ⟨h1, h2⟩
+    have hk1 := h1 k
+    rw [List.getElem?_eq_getElem hk] at hk1
+    cases hs : acc.1.shards[k]? with
+    | none => rw [hs] at hk1; simp at hk1
+    | some s =>
+      rw [hs] at hk1
+      simp only [Option.map_some, Option.some.injEq] at hk1
+      obtain ⟨ho, hsh⟩ := onShard_some acc.1 k (fun s => s.len) s hs
+      refine ⟨?_, ?_⟩
+      · intro j
+        by_cases hj : j = k
+        · subst hj
+          show Option.map _ (acc.1.onShard j _).1.shards[j]? = _
+          rw [hsh, List.getElem?_eq_getElem hk]
+          simp only [Option.map_some, Option.some.injEq]
+          exact hk1
+        · show Option.map _ (acc.1.onShard k _).1.shards[j]? = _
+          rw [onShard_getElem_ne _ _ _ _ hj]; exact h1 j
+      · show acc.2 ++ [(acc.1.onShard k _).2] = _
+        rw [ho, h2, List.take_succ_eq_append_getElem hk]
+        simp only [List.map_append, List.map_cons, List.map_nil]
+        congr 2
+        show Out.int s.count = _
+        rw [hk1]
+
+end Fanout
+
+namespace Django
+
+theorem intDigits_eq (n : Nat) : intDigits n = (Nat.toDigits 10 n).map Char.toNat := by
+  simp [intDigits]
+
+theorem intDigits_range (n : Nat) : ∀ c ∈ intDigits n, 48 ≤ c ∧ c ≤ 57 := by
+  intro c hc
+  rw [intDigits_eq, List.mem_map] at hc
+  obtain ⟨ch, hch, rfl⟩ := hc
+  have := Nat.isDigit_of_mem_toDigits (by decide) (by decide) hch
+  simp only [Char.isDigit, Bool.and_eq_true, decide_eq_true_eq] at this
+  have h1 : (48 : UInt32).toNat ≤ ch.val.toNat := UInt32.le_iff_toNat_le.1 this.1
+  have h2 : ch.val.toNat ≤ (57 : UInt32).toNat := UInt32.le_iff_toNat_le.1 this.2
+  exact ⟨h1, h2⟩
+
+theorem intDigits_ne_nil (n : Nat) : intDigits n ≠ [] := by
+  rw [intDigits_eq]; simp
+
+theorem intDigits_inj (m n : Nat) (h : intDigits m = intDigits n) : m = n := by
+  rw [intDigits_eq, intDigits_eq] at h
+  have h' : Nat.toDigits 10 m = Nat.toDigits 10 n := by
+    exact (List.map_inj_right (fun a b hab => Char.toNat_inj.1 hab)).1 h
+  have := congrArg (fun l => Nat.ofDigitChars 10 l 0) h'
+  simpa [Nat.ofDigitChars_toDigits] using this
+
+theorem split_at_sep (sep : Nat) : ∀ (a b k₁ k₂ : List Nat), sep ∉ a → sep ∉ b →
+    a ++ sep :: k₁ = b ++ sep :: k₂ → a = b ∧ k₁ = k₂ := by
+  intro a
+  induction a with
+  | nil =>
+    intro b k₁ k₂ _ hb h
+    cases b with
+    | nil => simpa using h
+    | cons x t =>
+      simp only [List.nil_append, List.cons_append, List.cons.injEq] at h
+      exact absurd (h.1 ▸ List.mem_cons_self) hb
+  | cons x t ih =>
+    intro b k₁ k₂ ha hb h
+    cases b with
+    | nil =>
+      simp only [List.nil_append, List.cons_append, List.cons.injEq] at h
+      exact absurd (h.1 ▸ List.mem_cons_self) ha
+    | cons y u =>
+      simp only [List.cons_append, List.cons.injEq] at h
+      have := ih u k₁ k₂ (fun hm => ha (List.mem_cons_of_mem _ hm))
+        (fun hm => hb (List.mem_cons_of_mem _ hm)) h.2
+      exact ⟨by rw [h.1, this.1], this.2⟩
+
+/-- the rendered version number -/
+def verStr (v : Int) : Str := if v < 0 then 45 :: intDigits (-v).toNat else intDigits v.toNat
+
+theorem verStr_no_sep (v : Int) : 58 ∉ verStr v := by
+  unfold verStr
+  intro h
+  split at h
+  · rcases List.mem_cons.1 h with h | h
+    · omega
+    · have := intDigits_range _ _ h; omega
+  · have := intDigits_range _ _ h; omega
+
+theorem verStr_inj (v w : Int) (h : verStr v = verStr w) : v = w := by
+  unfold verStr at h
+  have hne : ∀ n l, 45 :: l ≠ intDigits n := by
+    intro n l he
+    have := intDigits_range n 45 (he ▸ List.mem_cons_self)
+    omega
+  split at h <;> split at h
+  · have := intDigits_inj _ _ (List.cons.inj h).2
+    omega
+  · exact absurd h (hne _ _)
+  · exact absurd h.symm (hne _ _)
+  · have := intDigits_inj _ _ h
+    omega
+
+theorem makeKey_eq (d : Django) (k : Str) (v : Option Int) :
+    d.makeKey k v = .str ((d.keyPrefix ++ [58]) ++ (verStr (v.getD d.version) ++ 58 :: k)) := by
+  simp [makeKey, verStr]
+
+/-- `incr` with `default=None` on a shard (outside a transaction block) in which every row
+matching the key is expired raises KeyError -/
+theorem cache_incr_dead (s : Cache) (E : Externals) (now : Int) (k : PyVal) (delta : Int)
+    (hdead : ∀ r ∈ s.rows, Cache.keyMatch (put E s.cfg.disk k).1 (put E s.cfg.disk k).2 r = true →
+      Cache.expired now r = true) (hdepth : s.depth = 0) :
+    (s.incr E now k delta none).2 = .exc "KeyError" := by
+  unfold Cache.incr Cache.transact
+  simp only [hdepth, Nat.lt_irrefl, gt_iff_lt, if_false]
+  cases hsel : (s.log .begin).selKey (put E s.cfg.disk k).1 (put E s.cfg.disk k).2 with
+  | none => simp
+  | some r =>
+    have hmem : r ∈ s.rows := List.mem_of_find?_eq_some hsel
+    have hm : Cache.keyMatch (put E s.cfg.disk k).1 (put E s.cfg.disk k).2 r = true :=
+      List.find?_some hsel
+    simp [hdead r hmem hm]
+
+end Django
 
 end DC
